@@ -186,4 +186,42 @@ theorem initializerPtr_spec (e : Expr) (bs : List Nat) (h : Spec.CInt.initBytesP
   simp only [initializerPtr, he, bind_ok, hev]
   exact packAny_ptr_spec v
 
+/-! ### enumerator lists -/
+
+theorem enumValuesFrom_spec : ∀ (l : List (Option Expr)) (next : Int) (vs : List Int),
+    Spec.CInt.enumValuesFrom next l = some vs →
+    enumValuesFrom next (l.map (Option.map render)) = .ok vs := by
+  intro l
+  induction l with
+  | nil => intro next vs h; simp [Spec.CInt.enumValuesFrom] at h; subst h; rfl
+  | cons item rest ih =>
+    intro next vs h
+    simp only [Spec.CInt.enumValuesFrom] at h
+    cases item with
+    | none =>
+      simp only at h
+      split at h
+      · simp only [Option.map_eq_some_iff] at h
+        obtain ⟨ws, hws, rfl⟩ := h
+        simp only [List.map_cons, Option.map_none, enumValuesFrom, bind_ok, pure_eq_ok, ih _ _ hws]
+      · cases h
+    | some e =>
+      simp only at h
+      cases hv : Spec.CInt.eval e with
+      | none => simp [hv] at h
+      | some v =>
+        simp only [hv] at h
+        split at h
+        · rename_i hr
+          simp only [Option.map_eq_some_iff] at h
+          obtain ⟨ws, hws, rfl⟩ := h
+          have he : enumerator (render e) = .ok v :=
+            enumerator_spec e v (by simp [Spec.CInt.enumerator, hv, hr])
+          simp only [List.map_cons, Option.map_some, enumValuesFrom, he, bind_ok, pure_eq_ok, ih _ _ hws]
+        · cases h
+
+theorem enumValues_spec (l : List (Option Expr)) (vs : List Int) (h : Spec.CInt.enumValues l = some vs) :
+    enumValues (l.map (Option.map render)) = .ok vs :=
+  enumValuesFrom_spec l 0 vs h
+
 end Proofs.CEval
